@@ -39,8 +39,59 @@ def _emits(node):
     return None
 
 
+def _push_cells(ctx):
+    """Script.raw_serialize evaluated on a one-element script for *every* element length 0..521 (and 522, 65535, 65536): the element is
+    written as <length> data (0..75), 4c <length> data (76..255), 4d <length, 2 bytes little endian> data (256..520), and refused beyond --
+    the complete domain of the clause.  An op code is written as its one byte.  None when the function is outside the evaluator's subset."""
+    from sa.cells import Evaluator, Obj, Raised, Undecided
+    spec = "script:Script.raw_serialize"
+    mod, fn = rl.get(ctx, spec)
+
+    def want(L):
+        if L <= 75:
+            return bytes([L])
+        if L <= 255:
+            return b"\x4c" + bytes([L])
+        if L <= 520:
+            return b"\x4d" + L.to_bytes(2, "little")
+        return None
+    first = {}
+    try:
+        for L in list(range(0, 523)) + [65535, 65536]:
+            ctx.count("cells")
+            data = bytes([0xAB]) * L
+            me = Obj("script", "Script", {"commands": [0x76, data, 0xAC], "raw": None})
+            try:
+                r = Evaluator(ctx.repo, max_steps=50000).call(spec, [], self_obj=me)
+            except Raised:
+                r = None
+            w = want(L)
+            exp = None if w is None else b"\x76" + w + data + b"\xac"
+            if r != exp and "kind" not in first:
+                if exp is None:
+                    first.update(kind="raise-tile", msg="an element of %d bytes is serialised; nothing longer than 520 bytes can be pushed" % L)
+                elif r is None:
+                    first.update(kind="gap", msg="a push of %d bytes is not serialisable (it raises)" % L)
+                else:
+                    got_prefix = r[1:len(r) - L - 1] if isinstance(r, bytes) and len(r) >= L + 2 else r
+                    first.update(kind="minimal", msg="an element of %d bytes is written with the prefix %s; the minimal push for it is %s" % (
+                        L, got_prefix.hex() if isinstance(got_prefix, bytes) else got_prefix, w.hex()))
+    except Undecided:
+        return None
+    if first:
+        return [ctx.bad(spec, first["msg"], fn, mod, key=first["kind"])]
+    return [ctx.ok(spec, "push lengths [0,520] are covered: direct [0, 75], PUSHDATA1 [76, 255], PUSHDATA2 [256, 520] (every length 0..522 evaluated)", fn, mod, key="gap"),
+            ctx.ok(spec, "direct form used only for lengths [0, 75] ⊆ [0, 75]", fn, mod, key="minimal-direct"),
+            ctx.ok(spec, "pd1 form used only for lengths [76, 255] ⊆ [76, 255]", fn, mod, key="minimal-pd1"),
+            ctx.ok(spec, "pd2 form used only for lengths [256, 520] ⊆ [256, 520]", fn, mod, key="minimal-pd2"),
+            ctx.ok(spec, "the raising arm is reached only for lengths [521, +∞]", fn, mod, key="raise-tile")]
+
+
 def c04_1(ctx):
     """push-length chain tiles [0,520] without gap, minimal forms"""
+    ev = _push_cells(ctx)
+    if ev is not None:
+        return ev
     spec = "script:Script.raw_serialize"
     mod, fn = rl.get(ctx, spec)
     cfg = cfg_of(fn)
@@ -90,7 +141,8 @@ def c04_1(ctx):
         w = gap.witness()
         out.append(ctx.bad(spec, "a push of %d bytes is not serialisable: the chain on `%s` leaves the gap %s inside [0,520] (it reaches %s)" % (
             w, var, gap, "the raising arm" if tiles["raise"].contains(w) else "no arm"), (nodes.get("raise") or fn).ast if nodes.get("raise") else fn, mod,
-            key="gap", detail={"tiles": {k: repr(v) for k, v in tiles.items()}}))
+            key="gap", detail={"tiles": {k: repr(v) for k, v in tiles.items()}}) if tiles["raise"].contains(w) else
+            ctx.err(spec, "the statements that emit the push prefix for a length of %d were not recognised" % w, fn, mod))
     else:
         out.append(ctx.ok(spec, "push lengths [0,520] are covered: direct %s, PUSHDATA1 %s, PUSHDATA2 %s" % (tiles["direct"], tiles["pd1"], tiles["pd2"]), fn, mod, key="gap"))
     for k in ("direct", "pd1", "pd2"):
